@@ -1,7 +1,7 @@
 (* C16 — lemmas about coq/C16/Model.v, part B: global invariants over every schedule, sequential runs, witnesses *)
 From Coq Require Import List Arith Bool Lia.
 Import ListNotations.
-From GU Require Import C16.Model C16.ProofsBase C16.ProofsA C16.ProofsS C16.ProofsF C16.ProofsL C16.ProofsI C16.ProofsJ.
+From GU Require Import C16.Model C16.ProofsBase C16.ProofsA C16.ProofsS C16.ProofsF C16.ProofsL C16.ProofsI C16.ProofsJ C16.ProofsK.
 
 (* ------------------------------------------------------------------------------------------------ *)
 (* global invariant over every schedule                                                               *)
@@ -279,38 +279,50 @@ Qed.
 (* ------------------------------------------------------------------------------------------------ *)
 (* a successful Store is what later Fetches return (immutable cache)                                  *)
 
-Fixpoint run_fetches (P : params) (R : remote) (calls : list (nat * list fault)) : remote * list client :=
-  match calls with
-  | [] => (R, [])
-  | (c, fs) :: r =>
-      let '(R', L') := run_faults P c fs R (new_client P OFetch) in
-      let '(R'', ls) := run_fetches P R' r in (R'', L' :: ls)
-  end.
-
-Lemma fetch_run_dir : forall P c fs R L, c_op L = OFetch -> r_dir (fst (run_faults P c fs R L)) = r_dir R.
+Lemma fetch_run_same : forall P c fs R L, c_op L = OFetch ->
+  r_files (fst (run_faults P c fs R L)) = r_files R /\ r_dir (fst (run_faults P c fs R L)) = r_dir R.
 Proof.
   intros P c fs. induction fs as [|f r IH]; intros R L Ho; simpl; auto.
   destruct (step P c f R L) as [R' L'] eqn:Hs.
-  rewrite <- (fetch_step_dir P c f R L R' L' Ho Hs). apply IH.
+  destruct (fetch_step_same P c f R L R' L' Ho Hs) as [A B]. rewrite <- A, <- B. apply IH.
   rewrite (step_op _ _ _ _ _ _ _ Hs). exact Ho.
 Qed.
 
-Lemma run_fetches_visible : forall P v u calls R,
-  p_kind P = Immutable -> content (Pkg u) R = Some (full P v) -> newest u R -> r_dir R = true ->
-  let '(R2, Ls) := run_fetches P R calls in
-  content (Pkg u) R2 = Some (full P v) /\ newest u R2 /\ r_dir R2 = true /\
+Lemma newest1_newest : forall u R, newest1 u R -> newest u R.
+Proof. intros u R (t & rest & H & _). exists t, rest. exact H. Qed.
+
+Lemma run_op_clean : forall P c fs R L, c_op L = OClean -> c_op (snd (run_faults P c fs R L)) = OClean.
+Proof.
+  intros P c fs. induction fs as [|f r IH]; intros R L Ho; simpl; auto.
+  destruct (step P c f R L) as [R' L'] eqn:Hs. apply IH. rewrite (step_op _ _ _ _ _ _ _ Hs). exact Ho.
+Qed.
+
+Lemma run_calls_visible_imm : forall P v u calls R,
+  p_kind P = Immutable -> content (Pkg u) R = Some (full P v) -> newest1 u R -> r_dir R = true ->
+  let '(R2, Ls) := run_calls P R calls in
+  content (Pkg u) R2 = Some (full P v) /\ newest1 u R2 /\ r_dir R2 = true /\
   forall L, In L Ls -> fetch_ok L = true -> c_dest L = DInst v.
 Proof.
-  intros P v u calls. induction calls as [|[c fs] r IH]; intros R HK Hc Hn Hd; simpl.
+  intros P v u calls. induction calls as [|k r IH]; intros R HK Hc Hn Hd; simpl.
   - repeat split; auto. intros L [].
-  - pose proof (fetch_run_FIi P v u HK c fs R (new_client P OFetch) eq_refl (FIi_init P v u R Hc Hn)) as HF.
-    pose proof (fetch_run_dir P c fs R (new_client P OFetch) eq_refl) as K2.
-    destruct (run_faults P c fs R (new_client P OFetch)) as [R' L'] eqn:E. simpl in *.
-    destruct HF as (A1 & A2 & _ & _ & _ & _ & HD).
-    specialize (IH R' HK A1 A2). rewrite K2 in IH. specialize (IH Hd).
-    destruct (run_fetches P R' r) as [R'' ls]. destruct IH as (A & B & C & D). repeat split; auto.
-    intros L [<-|HL] Hf; [|auto]. unfold fetch_ok in Hf.
-    destruct (c_op L'); try discriminate. destruct (c_pc L') as [| | | | | | | | | | | | | | | | | | | | | | | | | | | | | | | | | | | [|] | ]; try discriminate. exact HD.
+  - destruct k as [c fs|c fs].
+    + pose proof (fetch_run_FIi P v u HK c fs R (new_client P OFetch) eq_refl
+                    (FIi_init P v u R Hc (newest1_newest u R Hn))) as HF.
+      pose proof (fetch_run_same P c fs R (new_client P OFetch) eq_refl) as [K1 K2].
+      destruct (run_faults P c fs R (new_client P OFetch)) as [R' L'] eqn:E. simpl in *.
+      destruct HF as (A1 & _ & _ & _ & _ & _ & HD).
+      assert (Hn' : newest1 u R') by (unfold newest1 in *; rewrite K1; exact Hn).
+      specialize (IH R' HK A1 Hn'). rewrite K2 in IH. specialize (IH Hd).
+      destruct (run_calls P R' r) as [R'' ls]. destruct IH as (A & B & C & D). repeat split; auto.
+      intros L [<-|HL] Hf; [|auto]. unfold fetch_ok in Hf.
+      destruct (c_op L'); try discriminate. destruct (c_pc L') as [| | | | | | | | | | | | | | | | | | | | | | | | | | | | | | | | | | | [|] | ]; try discriminate. exact HD.
+    + pose proof (clean_run_CIi P v u HK c fs R (new_client P OClean) eq_refl (CIi_init P v u HK R Hc Hn Hd)) as HC.
+      pose proof (run_op_clean P c fs R (new_client P OClean) eq_refl) as Ho.
+      destruct (run_faults P c fs R (new_client P OClean)) as [R' L'] eqn:E. simpl in *.
+      destruct HC as (A1 & A2 & A3 & _).
+      specialize (IH R' HK A1 A2 A3).
+      destruct (run_calls P R' r) as [R'' ls]. destruct IH as (A & B & C & D). repeat split; auto.
+      intros L [<-|HL] Hf; [|auto]. unfold fetch_ok in Hf. rewrite Ho in Hf. discriminate.
 Qed.
 
 Lemma store_success_visible_immutable_l : forall P v u c fs R calls,
@@ -318,8 +330,8 @@ Lemma store_success_visible_immutable_l : forall P v u c fs R calls,
   let '(R1, L1) := run_faults P c fs R (new_client P (OStore v u)) in
   c_pc L1 = Done Ok ->
   content (Pkg u) R1 = Some (full P v) /\
-  (newest u R1 ->
-   let '(R2, Ls) := run_fetches P R1 calls in
+  (newest1 u R1 ->
+   let '(R2, Ls) := run_calls P R1 calls in
    (forall L, In L Ls -> fetch_ok L = true -> c_dest L = DInst v) /\
    (forall c', let L' := snd (run_faults P c' (repeat NoF 12) R2 (new_client P OFetch)) in
                c_pc L' = Done Ok /\ c_dest L' = DInst v)).
@@ -330,7 +342,7 @@ Proof.
   destruct (run_faults P c fs R (new_client P (OStore v u))) as [R1 L1].
   intros E. specialize (HS E). specialize (HD E). split; auto.
   intros Hn.
-  pose proof (run_fetches_visible P v u calls R1 HK HS Hn HD) as HV.
-  destruct (run_fetches P R1 calls) as [R2 Ls]. destruct HV as (A & B & C & D). split; auto.
-  intros c'. apply (fetch_live_imm P v u HK HR c' R2); auto.
+  pose proof (run_calls_visible_imm P v u calls R1 HK HS Hn HD) as HV.
+  destruct (run_calls P R1 calls) as [R2 Ls]. destruct HV as (A & B & C & D). split; auto.
+  intros c'. apply (fetch_live_imm P v u HK HR c' R2); auto. apply newest1_newest. exact B.
 Qed.
